@@ -25,12 +25,16 @@ def run_history(inp):
     try:
         A, _ = U.build(inp["init"])
     except Exception as e:
+        if U.exc_name(e) in ("Timeout", "CallTimeout"):
+            raise
         return {"steps": [{"err": U.exc_name(e)}]}
     steps.append(U.views(A))
     for op in inp["ops"]:
         try:
             A = U.apply_op(A, op)
         except Exception as e:
+            if U.exc_name(e) in ("Timeout", "CallTimeout"):
+                raise
             steps.append({"err": U.exc_name(e)})
             break
         steps.append(U.views(A))
@@ -100,7 +104,10 @@ def run_history_oracle(inp):
     """the property itself: after construction and after every valid step the three views are coherent,
     duplicate-free and equal to the set model"""
     A, ref = U.build(inp["init"])
+    starts0 = list(A.start_vertices)          # no operation of the property touches the start list
     pb = U.coherence_problems(U.views(A), ref)
+    if "starts" in inp["init"] and starts0 != list(inp["init"]["starts"]):
+        pb.append("start-list")
     if pb:
         return {"step": 0, "op": "construct:" + inp["init"]["route"], "problems": pb, "views": U.views(A)}
     for k, op in enumerate(inp["ops"], 1):
@@ -114,6 +121,8 @@ def run_history_oracle(inp):
         pb = U.coherence_problems(vw, ref)
         if op["k"] == "copy" and U.views(orig) != before:
             pb.append("copy-changed-original")
+        if list(A.start_vertices) != starts0:
+            pb.append("start-list")
         if pb:
             return {"step": k, "op": op["k"], "problems": pb, "views": vw,
                     "elist_ir": [op.get("ir")] if op["k"] in ("adde", "addel") else None}
@@ -133,8 +142,17 @@ def run_history_oracle(inp):
         if set(A.neighbors_out(v)) != {h for (t, l, h) in E if t == v} or set(A.neighbors_in(v)) != {t for (t, l, h) in E if h == v}:
             pb.append("neighbors")
         for w in set(A.neighbors_out(v)):
-            if sorted(A.edge_labels(v, w)) != sorted(l for (t, l, h) in E if t == v and h == w) or not A.has_edge(v, w):
+            labs = sorted(l for (t, l, h) in E if t == v and h == w)
+            if sorted(A.edge_labels(v, w)) != labs or not A.has_edge(v, w):
                 pb.append("edge_labels")
+            try:                                    # edge_label: the label of the unique edge, ValueError otherwise
+                got = ("ok", A.edge_label(v, w))
+            except ValueError:
+                got = ("ValueError",)
+            if got != (("ok", labs[0]) if len(labs) == 1 else ("ValueError",)):
+                pb.append("edge_label")
+    if sorted(A.edges(), key=repr) != sorted(((t, h) for (t, l, h) in E), key=repr):
+        pb.append("edges(with_labels=False)")
     pb += U.coherence_problems(U.views(A), ref)
     if pb:
         return {"step": len(inp["ops"]), "op": "accessors", "problems": sorted(set(pb)), "views": U.views(A)}
@@ -281,33 +299,270 @@ def judge_kbmag(inp, obs, lr):
     return {"expected": "loaded automaton = transition table and start state written in the text", "observed": obs, "tags": tags}
 
 
+
+# ------------------------------------------------------------------ several objects in one process
+SMALL_BUILTINS = ["f2.wa", "f2.geowa", "pentagon_ra.wa", "cone_torus.wa", "cox334.wa", "cox334.geowa"]
+_TABLES = {}
+
+
+def builtin_table(name):
+    if name not in _TABLES:
+        _TABLES[name] = U.table_of_text(U.builtin_text(name))
+    return _TABLES[name]
+
+
+def table_ref(labels, transitions):
+    E = {(i + 1, l, t) for i, row in enumerate(transitions) for l, t in zip(labels, row) if t != 0}
+    return U.Ref(set(range(1, len(transitions) + 1)) | {e[2] for e in E}, E)
+
+
+def dict_ref(route, d):
+    """set model of FSA(d) for the caller dictionary in its JSON form"""
+    if route == "graph":
+        V = {v for v, _ in d} | {w for _, row in d for _, w in row}
+        E = {(v, l, w) for v, row in d for l, w in row}
+    else:
+        V = {v for v, _ in d}
+        E = {(v, l, w) for v, row in d for w, ls in row for l in ls}
+    return U.Ref(V, E)
+
+
+def dict_edit(route, d, starts, edit):
+    """the caller modifies its own dictionary / start list (JSON form; mirrored on the real objects by `real_dict_edit`)"""
+    k = edit["e"]
+    if k == "newkey":
+        d.append([edit["v"], []])
+    elif k == "entry":
+        row = next(r for v, r in d if v == edit["v"])
+        if route == "graph":
+            row.append([edit["l"], edit["w"]])
+        else:
+            ent = next((e for e in row if e[0] == edit["w"]), None)
+            if ent is None:
+                row.append([edit["w"], [edit["l"]]])
+            else:
+                ent[1].append(edit["l"])
+    elif k == "start":
+        starts.append(edit["v"])
+
+
+def real_dict_edit(route, D, S, edit):
+    k = edit["e"]
+    if k == "newkey":
+        D[edit["v"]] = {}
+    elif k == "entry":
+        if route == "graph":
+            D[edit["v"]][edit["l"]] = edit["w"]
+        else:
+            D[edit["v"]].setdefault(edit["w"], []).append(edit["l"])
+    elif k == "start":
+        S.append(edit["v"])
+
+
+def json_of_dict(route, D):
+    if route == "graph":
+        return [[v, [[l, w] for l, w in row.items()]] for v, row in D.items()]
+    return [[v, [[w, list(ls)] for w, ls in row.items()]] for v, row in D.items()]
+
+
+def gen_objects(rng, n):
+    names = SMALL_BUILTINS
+    for _ in range(n):
+        steps, refs, univ = [], [], []          # refs[i], univ[i]: reference and (vertices, labels) universe of object i
+        dicts = []                              # [route, json d, starts]
+        files = []                              # kbmag texts: (labels, transitions, initial)
+        for _ in range(rng.randint(4, 14)):
+            r = rng.random()
+            if r < 0.12 or not (dicts or refs):
+                route = rng.choice(["graph", "out", "out"])
+                init = None
+                while init is None or init["route"] != route:
+                    init = U.rand_init(rng)
+                d, st = copy.deepcopy(init["d"]), list(init["starts"])
+                dicts.append([route, d, st])
+                steps.append({"k": "newdict", "route": route, "d": copy.deepcopy(d), "starts": list(st)})
+            elif r < 0.27 and dicts:
+                j = rng.randrange(len(dicts))
+                route, d, st = dicts[j]
+                steps.append({"k": "build", "from": j})
+                refs.append(dict_ref(route, d))
+                univ.append((U.VS, U.LS))
+            elif r < 0.37 and dicts:
+                j = rng.randrange(len(dicts))
+                route, d, st = dicts[j]
+                keys = [v for v, _ in d]
+                e = rng.choice(["newkey", "entry", "entry", "start"])
+                if e == "newkey":
+                    fresh = [v for v in U.VS + [7, 8] if v not in keys]
+                    if not fresh:
+                        continue
+                    edit = {"e": e, "v": fresh[0]}
+                elif e == "entry":
+                    if not keys:
+                        continue
+                    v = rng.choice(keys)
+                    row = next(rw for x, rw in d if x == v)
+                    used = {l for l, _ in row} if route == "graph" else {l for _, ls in row for l in ls}
+                    free = [l for l in U.LS + ["d"] if l not in used]
+                    if not free:
+                        continue
+                    edit = {"e": e, "v": v, "l": free[0], "w": rng.choice(keys)}       # stays deterministic, targets stay keys
+                else:
+                    edit = {"e": e, "v": rng.choice(U.VS)}
+                dict_edit(route, d, st, edit)
+                steps.append({"k": "dictedit", "id": j, "edit": edit})
+            elif r < 0.5:
+                name = rng.choice(names)
+                labels, transitions, initial = builtin_table(name)
+                steps.append({"k": "builtin", "name": name})
+                refs.append(table_ref(labels, transitions))
+                univ.append((list(range(1, len(transitions) + 2)), list(labels) + ["z"]))
+            elif r < 0.6:
+                if not files or rng.random() < 0.4:
+                    ns, nl = rng.choice([1, 2, 3, 4]), rng.choice([1, 2, 3])
+                    labels = list("abc")[:nl]
+                    transitions = [[rng.choice([0] + list(range(1, ns + 1))) for _ in labels] for _ in range(ns)]
+                    style = {"intervals": False, "quoted": rng.random() < 0.3, "inner": 0.0, "name": "_RWS.wa"}
+                    files.append((labels, transitions, [1]))
+                    steps.append({"k": "newfile", "labels": labels, "transitions": transitions, "initial": [1],
+                                  "text": render_kbmag(rng, labels, transitions, [1], style)})
+                f = rng.randrange(len(files))
+                labels, transitions, initial = files[f]
+                steps.append({"k": "loadfile", "id": f})
+                refs.append(table_ref(labels, transitions))
+                univ.append((list(range(1, len(transitions) + 2)), labels + ["z"]))
+            elif r < 0.66 and refs:
+                i = rng.randrange(len(refs))
+                steps.append({"k": "copy", "of": i})
+                refs.append(refs[i].clone())
+                univ.append(univ[i])
+            elif refs:
+                i = rng.randrange(len(refs))
+                vs, ls = univ[i]
+                op, ok = U.rand_op(rng, refs[i], vs, ls, 0.0, fresh=False)
+                if op["k"] == "rename":
+                    continue
+                refs[i].apply(op)
+                steps.append({"k": "op", "on": i, "op": op})
+        yield {"steps": steps}
+
+
+def run_objects(inp):
+    objs, refs, starts = [], [], []
+    dicts, exp = [], []          # real caller objects (route, D, S) and their expected JSON form
+    files, paths = [], []
+    tmp = []
+
+    def check(where):
+        pb = []
+        for i, (A, ref) in enumerate(zip(objs, refs)):
+            p = U.coherence_problems(U.views(A), ref)
+            if list(A.start_vertices) != list(starts[i]):
+                p.append("start-list")
+            if p:
+                pb.append([i] + p)
+        for j, ((route, D, S), (d, st)) in enumerate(zip(dicts, exp)):
+            if U.canon_dict(json_of_dict(route, D)) != U.canon_dict(d) or list(S) != list(st):
+                pb.append(["caller-dictionary-%d-changed" % j])
+        return pb
+
+    try:
+        for n, st in enumerate(inp["steps"]):
+            k = st["k"]
+            if k == "newdict":
+                if st["route"] == "graph":
+                    D = {v: {l: w for l, w in row} for v, row in st["d"]}
+                else:
+                    D = {v: {w: list(ls) for w, ls in row} for v, row in st["d"]}
+                dicts.append((st["route"], D, list(st["starts"])))
+                exp.append((copy.deepcopy(st["d"]), list(st["starts"])))
+            elif k == "build":
+                route, D, S = dicts[st["from"]]
+                objs.append(FS.FSA(D, start_vertices=S, graph_dict=(route == "graph")))
+                refs.append(dict_ref(route, exp[st["from"]][0]))
+                starts.append(list(exp[st["from"]][1]))
+            elif k == "dictedit":
+                route, D, S = dicts[st["id"]]
+                real_dict_edit(route, D, S, st["edit"])
+                dict_edit(route, exp[st["id"]][0], exp[st["id"]][1], st["edit"])
+            elif k == "builtin":
+                labels, transitions, initial = builtin_table(st["name"])
+                objs.append(FS.load_builtin(st["name"]))
+                refs.append(table_ref(labels, transitions))
+                starts.append(list(initial))
+            elif k == "newfile":
+                fd, path = tempfile.mkstemp(suffix=".wa")
+                with os.fdopen(fd, "w") as fh:
+                    fh.write(st["text"])
+                tmp.append(path)
+                files.append((st["labels"], st["transitions"], st["initial"]))
+                paths.append(path)
+            elif k == "loadfile":
+                labels, transitions, initial = files[st["id"]]
+                objs.append(FS.load_kbmag_file(paths[st["id"]]))
+                refs.append(table_ref(labels, transitions))
+                starts.append(list(initial))
+            elif k == "copy":
+                objs.append(copy.deepcopy(objs[st["of"]]))
+                refs.append(refs[st["of"]].clone())
+                starts.append(list(starts[st["of"]]))
+            elif k == "op":
+                i = st["on"]
+                objs[i] = U.apply_op(objs[i], st["op"])
+                refs[i].apply(st["op"])
+            pb = check(n)
+            if pb:
+                return {"step": n, "kind": k, "problems": pb[:3], "detail": {a: b for a, b in st.items() if a not in ("text", "d")}}
+    finally:
+        for p in tmp:
+            os.unlink(p)
+    return {"ok": True}
+
+
+def judge_objects(inp, obs, lr):
+    if obs.get("ok"):
+        return None
+    if "exc" in obs:
+        return {"expected": "every step succeeds", "observed": obs, "tags": {"exc": obs["exc"]}}
+    return {"expected": "every automaton of the process equals its own set model (and every caller dictionary its own history) after every step",
+            "observed": obs, "tags": {"kind": obs["kind"], "problems": str(obs["problems"][0][1:3])}}
+
+
 def nontrivial_hist(inp):
     return len(inp.get("ops", [])) >= 2
 
 
 CLAUSES = [
-    Clause("hist_corr", "corr", gen_hist_corr, run_history, judge_history_corr, lean=lean_history,
+    Clause("hist_corr", "corr", gen_hist_corr, U.bounded(run_history), judge_history_corr, lean=lean_history,
            nontrivial=nontrivial_hist, site="fsa.FSA (constructors, add_vertices, add_edges, delete_vertex(s), recurrent, rename_generators, deepcopy)",
            budget={"quick": 1000, "thorough": 8000},
            what="random histories (length <= 40, every construction route, 15% end in an invalid op) on the real FSA and on the Lean model; "
                 "the three dictionaries compared as sets (label lists as multisets) after every step"),
-    Clause("hist_exhaustive_corr", "corr", gen_hist_exh, run_history, judge_history_corr, lean=lean_history,
+    Clause("hist_exhaustive_corr", "corr", gen_hist_exh, U.bounded(run_history), judge_history_corr, lean=lean_history,
            nontrivial=nontrivial_hist, site="fsa.FSA mutators", budget={"quick": 8000, "thorough": 150000},
            what="bounded-exhaustive histories over 3 vertices x 2 labels (58-operation alphabet incl. has_edge queries, two initial automata), depth 1,2,3,4 until the cap"),
-    Clause("builtin_corr", "corr", gen_builtin, run_builtin, judge_builtin, lean=lean_builtin,
+    Clause("builtin_corr", "corr", gen_builtin, U.bounded(run_builtin), judge_builtin, lean=lean_builtin,
            site="fsa.load_builtin / kbmag_utils.build_dict", budget={"quick": 18, "thorough": 18},
            what="all built-in .wa/.geowa files: parsed table -> model fromKbmag vs load_builtin"),
-    Clause("hist_oracle", "oracle", gen_hist_oracle, run_history_oracle, judge_history_oracle, nontrivial=nontrivial_hist,
+    Clause("hist_oracle", "oracle", gen_hist_oracle, U.bounded(run_history_oracle), judge_history_oracle, nontrivial=nontrivial_hist,
            site="fsa.FSA views", budget={"quick": 2000, "thorough": 30000},
            what="coherence predicate + set model on the real object after every step of a valid random history; read accessors at the end"),
-    Clause("hist_exhaustive_oracle", "oracle", gen_hist_exh, run_history_oracle, judge_history_oracle, nontrivial=nontrivial_hist,
+    Clause("hist_exhaustive_oracle", "oracle", gen_hist_exh, U.bounded(run_history_oracle), judge_history_oracle, nontrivial=nontrivial_hist,
            site="fsa.FSA views", budget={"quick": 8000, "thorough": 150000},
            what="same predicate on bounded-exhaustive histories"),
-    Clause("kbmag_oracle", "oracle", gen_kbmag, run_kbmag, judge_kbmag,
+    Clause("kbmag_oracle", "oracle", gen_kbmag, U.bounded(run_kbmag), judge_kbmag,
            site="fsa.load_kbmag_file / _from_gap_record / load_builtin", budget={"quick": 400, "thorough": 4000},
            what="random kbmag record texts (tables, alphabets, spacing/newlines, interval syntax, quoted names) and the 18 built-in files: "
                 "loaded edges and start state equal the table in the text (independent regex reading for the built-ins)"),
 ]
+
+CLAUSES.append(
+    Clause("objects_oracle", "oracle", gen_objects, U.bounded(run_objects), judge_objects,
+           site="fsa.FSA.__init__ (both routes) / load_builtin / load_kbmag_file / copy.deepcopy + mutators",
+           budget={"quick": 400, "thorough": 8000},
+           what="interleaved histories over SEVERAL automata in one process: caller-owned dictionaries (both routes) reused for further automata and "
+                "modified by the caller afterwards, repeated load_builtin / load_kbmag_file of the same file with edits in between, deepcopies; after "
+                "every step every automaton is compared with its own set model and every caller dictionary / start list with its own history"))
 
 # character-level parser clauses (text -> record), written by the main session
 from props._c09parse import CLAUSES_PARSE  # noqa: E402
